@@ -87,9 +87,9 @@ inductive Pc
   deriving DecidableEq, Repr, Inhabited
 
 inductive Ev
-  | issued (oid : Nat) (op : OpKind) (timeout : Option Nat)
+  | issued (oid : Nat) (op : OpKind) (timeout : Option Nat) (at_ : Nat)
   | accepted (oid : Nat) (idx : Nat)
-  | ret (oid : Nat) (r : Res)
+  | ret (oid : Nat) (r : Res) (at_ : Nat)
   | dead (oid : Nat) (why : Reason)
   | startEnd (out : SOut)
   | termConsumed
@@ -103,6 +103,7 @@ inductive Ev
   | stopEnd (out : SOut)
   | joined (o : Outcome)
   | handleNew (hid : Nat) (strong : Bool)
+  | handleDrop (hid : Nat)
   | upgradeFailed (hid : Nat)
   | probeAlive (hid : Nat) (b : Bool)
   deriving DecidableEq, Repr
@@ -196,7 +197,7 @@ def Sys.finish (s : Sys) (o : Outcome) (evs : List Ev) : Sys :=
 def Sys.complete (s : Sys) (oid : Nat) (r : Res) (why : Option Reason) : Sys :=
   { s with client := setF s.client oid (.done r), inflight := s.inflight - 1,
            dead := match why with | some w => s.dead ++ [(oid, w)] | none => s.dead,
-           ev := s.ev ++ (match why with | some w => [.dead oid w] | none => []) ++ [.ret oid r] }
+           ev := s.ev ++ (match why with | some w => [.dead oid w] | none => []) ++ [.ret oid r s.clock] }
 
 def opItem (oid : Nat) : OpKind → Option Item
   | .tell => some (.env oid .tell)
@@ -220,7 +221,7 @@ def Sys.issue (s : Sys) (h : Nat) (op : OpSpec) : Option Sys :=
     let s : Sys := { s with nextOid := oid + 1, spec := setF s.spec oid op,
                             deadline := setF s.deadline oid (op.timeout.map (s.clock + ·)),
                             inflight := s.inflight + 1,
-                            ev := s.ev ++ [.issued oid op.kind op.timeout] }
+                            ev := s.ev ++ [.issued oid op.kind op.timeout s.clock] }
     match opItem oid op.kind with
     | none =>
       -- kill(): try_send on the control channel; Full and Closed are Ok
@@ -259,7 +260,7 @@ def step? (s : Sys) : Label → Option Sys
       if ¬ s.rxOpen then
         some ({ s with waiters := s.waiters.erase w }.failSend oid w.item)
       else if w.granted then
-        some { s with waiters := s.waiters.map (fun x => if x.oid = oid then { x with acq := true } else x) }
+        some { s with waiters := s.waiters.map (fun x => if x = w then { x with acq := true } else x) }
       else none
     | none => none
   | .push oid =>
@@ -303,7 +304,7 @@ def step? (s : Sys) : Label → Option Sys
     | none => none
   | .dropH h =>
     match s.handles.find? (·.1 = h) with
-    | some p => some { s with handles := s.handles.erase p }
+    | some p => some { s with handles := s.handles.erase p, ev := s.ev ++ [.handleDrop h] }
     | none => none
   | .downgrade h =>
     if (h, true) ∈ s.handles then
